@@ -134,23 +134,23 @@ impl Position {
                     None
                 }
             }
-        } else if let (Some(w), Some(h)) = (self.width, self.height) {
-            // if x/y (etc) are absent, SVG says they are treated as zero - which for an
-            // ellipse, as for a circle, is where its centre is.
-            let (ox, oy) = if self.shape == "ellipse" {
-                (-w / 2., -h / 2.)
-            } else {
-                (0., 0.)
-            };
-            if let Some((x1, x2)) = x_ext {
-                Some(BoundingBox::new(x1, oy, x2, oy + h))
-            } else if let Some((y1, y2)) = y_ext {
-                Some(BoundingBox::new(ox, y1, ox + w, y2))
-            } else {
-                Some(BoundingBox::new(ox, oy, ox + w, oy + h))
-            }
         } else {
-            None
+            // if x/y (etc) are absent, SVG says they are treated as zero - which for an
+            // ellipse, as for a circle, is where its centre is. So an axis given by its
+            // length alone (whatever the other axis is given by) has an extent too.
+            let from_length = |length: Option<f32>| {
+                length.map(|l| match self.shape.as_str() {
+                    "ellipse" => (-l / 2., l / 2.),
+                    _ => (0., l),
+                })
+            };
+            match (
+                x_ext.or_else(|| from_length(self.width)),
+                y_ext.or_else(|| from_length(self.height)),
+            ) {
+                (Some((x1, x2)), Some((y1, y2))) => Some(BoundingBox::new(x1, y1, x2, y2)),
+                _ => None,
+            }
         }
     }
 
